@@ -3,4 +3,7 @@ CLAIMS = {
  "C15": ("Decides, for every exported method of deque.Deque and internal/heap.Heap and on every control-flow path (callees summarised), that a store to the container's storage is accompanied by a generation bump, and that both iterators validate the generation before any read of storage. The iterators detect change only through gen, so this is a necessary condition of snapshot-or-panic for all histories; it is not sufficient (value-level iteration order is not decided).",
          "Trusts go/types+go/ssa; assumes single-goroutine use as the property states; only the default build configuration is analysed.",
          "typestate (MUT=>BUMP) dataflow over SSA with call summaries; check-before-use typestate"),
+ "C09": ("Decides the library's side of the close-exactly-once contract over the complete universe of owning functions (every Stream/Peekable parameter in stream, parallel, xrand) and wrapper types: each owned parameter has exactly one discharge form (closed on all paths / wrapped / handed on / goroutine-owned with deferred Close ordered before wg.Done and a cancelling+waiting Close), every wrapper Close forwards to every stream field on all paths, and no wrapper method drops, double-closes, or uses a stream field after Close. All-paths and all-functions, so it holds for normal end, error and abandonment alike; necessary, not sufficient.",
+         "Trusts go/types+go/ssa; assumes the consumer closes what it was returned exactly once and does not call Next concurrently with Close; sources are assumed to honour context cancellation.",
+         "type-directed ownership analysis (transfer/forward/close) + per-field typestate dataflow over SSA"),
 }
